@@ -15,7 +15,7 @@ class TooBig(Exception):
     pass
 
 
-LIMIT = 400000
+LIMIT = 60000
 
 
 class Poly:
@@ -185,6 +185,58 @@ def _elim_inv(p, v, den):
     return out
 
 
+_ROOT_CACHE = {}
+
+
+def _reduce_trig(p, ctx):
+    """normal form modulo s^2 + c^2 = 1 for every pair"""
+    for (a_, b_, _arg) in ctx.trig.values():
+        v = str(a_)
+        if p.maxdeg(v) >= 2:
+            q = Poly.const(1) - Poly.var(str(b_)) * Poly.var(str(b_))
+            p = _subst_power(p, v, lambda e, q=q, v=v: (q ** (e // 2)) * (Poly.var(v) if e % 2 else Poly.const(1)))
+    return p
+
+
+def _sqrt_as_variable(arg, ctx, memo):
+    key = (id(ctx), arg.get_id())
+    if key in _ROOT_CACHE:
+        return _ROOT_CACHE[key]
+    res = None
+    try:
+        a = _reduce_trig(from_z3(arg, memo), ctx)
+        if len(a.t) == 1:
+            (mono, coef), = a.t.items()
+            if coef == 1 and len(mono) == 1 and mono[0][1] == 2:
+                q = mono[0][0]
+                s = z3.Solver()
+                s.set('timeout', 2000)
+                s.add([c for c in ctx.cons if q in {str(x) for x in _consts(c)}])
+                s.add(z3.Real(q) < 0)
+                if s.check() == z3.unsat:
+                    res = q
+    except (NotImplementedError, TooBig):
+        res = None
+    _ROOT_CACHE[key] = res
+    return res
+
+
+def _consts(t, acc=None):
+    acc = [] if acc is None else acc
+    stack = [t]
+    seen = set()
+    while stack:
+        u = stack.pop()
+        if u.get_id() in seen:
+            continue
+        seen.add(u.get_id())
+        if z3.is_const(u) and u.decl().kind() == z3.Z3_OP_UNINTERPRETED:
+            acc.append(u)
+        else:
+            stack += u.children()
+    return acc
+
+
 def eliminate(expr, ctx):
     """Returns a Poly P in base variables (and possibly odd powers of sqrt variables) such that,
     under the defining constraints, expr = 0 <=> P = 0."""
@@ -205,11 +257,35 @@ def eliminate(expr, ctx):
                 progressed = True
                 break
             if d[0] == 'sqrt':
+                root = _sqrt_as_variable(d[1], ctx, memo)
+                if root is not None:
+                    # sqrt(q^2) = q for a variable q known to be non-negative (e.g. cos(lat))
+                    p = _subst_power(p, v, lambda e, q=root: Poly.var(q) ** e)
+                    progressed = True
+                    break
                 if p.maxdeg(v) >= 2:
                     c0 = from_z3(d[1], memo)
                     p = _subst_power(p, v, lambda e, c0=c0, v=v: (c0 ** (e // 2)) * (Poly.var(v) if e % 2 else Poly.const(1)))
                     progressed = True
                     break
+                continue
+            if d[0] == 'sin':
+                # reduce modulo s^2 + c^2 = 1 (the relations of independent pairs are a Groebner
+                # basis, so the normal form decides identities modulo them)
+                if p.maxdeg(v) >= 2:
+                    cos_name = None
+                    for (a_, b_, _arg) in ctx.trig.values():
+                        if str(a_) == v:
+                            cos_name = str(b_)
+                            break
+                    if cos_name is None:
+                        raise NotImplementedError('sin without a partner')
+                    one_minus_c2 = Poly.const(1) - Poly.var(cos_name) * Poly.var(cos_name)
+                    p = _subst_power(p, v, lambda e, q=one_minus_c2, v=v: (q ** (e // 2)) * (Poly.var(v) if e % 2 else Poly.const(1)))
+                    progressed = True
+                    break
+                continue
+            if d[0] == 'cos':
                 continue
             if d[0] == 'value' and len(d) > 2:
                 c0 = from_z3(d[2], memo)
